@@ -845,6 +845,41 @@ def pool_correspond(ctx, corr, days, shard=200):
             corr.mismatches.append({"kind": "coverage", "what": "no traced day with " + need})
 
 
+def fkc_correspond(ctx, corr, days, shard=500):
+    """crop coefficient FKC and BBCH code (DevModel): every emitted day of stage >= 1 (before emergence: the unclamped form of crop.go:138)"""
+    pts = [d for d in days if "k_kc" in d and (d["grown"] or d["o_k"] == 0)]
+    def rec(d):
+        k = d["o_k"]
+        return ("{| fko_grown := %s; fko_first := %s; fko_kcini := %s; fko_kcprev := %s; fko_kc := %s; fko_endprev := %s; fko_end := %s; "
+                "fko_sum := %s; fko_tsum := %s; fko_o_fkc := %s; fko_o_bbch := (%d)%%Z |}"
+                % (b(d["grown"]), b(k == 0), fl(d["k_kcini"]), fl(d["k_kcprev"]), fl(d["k_kc"]), fl(d["k_endprev"]), fl(d["k_end"]),
+                   fl(d["o_sum"][k]), fl(d["tsum"][k]), fl(d["k_o_fkc"]), d["k_o_bbch"]))
+    recs = [rec(d) for d in pts]
+    items = []
+    for k in range(0, len(recs), shard):
+        body = HDR + ["Definition cases : list fkc_obs := [\n%s\n]." % ";\n".join(recs[k:k + shard]),
+                      "Definition M := Eval vm_compute in fkc_mismatches %d%%nat cases." % k, "Print M."]
+        items.append(("Cases_c09fkc_%d" % (k // shard), "\n".join(body) + "\n"))
+    for nm, rc2, o in ctx.coq_eval_many(items, timeout=900):
+        m = re.search(r"M\s*=\s*(.*?)\s*:\s*list \(nat \* nat\)", o, re.S)
+        if rc2 != 0 or not m:
+            corr.mismatches.append({"kind": "coq-eval", "shard": nm, "output": o[-1500:]})
+            continue
+        pairs = re.findall(r"\(\s*(\d+)(?:%nat)?\s*,\s*(\d+)(?:%nat)?\s*\)", m.group(1))
+        if m.group(1).strip() != "[]" and not pairs:
+            corr.mismatches.append({"kind": "coq-eval", "shard": nm, "output": o[-1500:]})
+        for idx, mask in pairs[:10]:
+            d = pts[int(idx)]
+            corr.mismatches.append({"kind": "crop-coefficient-kernel", "differs": [n for j, n in enumerate(["FKC", "BBCH"]) if int(mask) >> j & 1],
+                                    "crop": d["crop"], "zeit": d["zeit"], "line": d["line"],
+                                    "case": {k: d[k] for k in d if k.startswith("k_") or k in ("o_k", "grown")}})
+    corr.cases += len(recs)
+    corr.dist["crop-coefficient-days"] = len(recs)
+    corr.dist["crop-coefficient:before-emergence"] = sum(1 for d in pts if not d["grown"])
+    corr.dist["crop-coefficient:stage-1"] = sum(1 for d in pts if d["grown"] and d["o_k"] == 0)
+    corr.dist["crop-coefficient:later-stages"] = sum(1 for d in pts if d["grown"] and d["o_k"] > 0)
+
+
 def dl_run(ctx):
     return waterlib.run_harness(ctx, "c09dl", ["-seed", str(ctx.seed), "-n", "4000" if ctx.thorough else "500"])
 
@@ -917,6 +952,7 @@ def correspond(ctx):
     radia_correspond(ctx, c, days)
     supply_correspond(ctx, c, days)
     pool_correspond(ctx, c, days)
+    fkc_correspond(ctx, c, days)
     seen = set()
     for d in days:
         c.bump("crop=" + d["crop"])
